@@ -390,6 +390,12 @@ func init() {
 			RA := lbase + A
 			B := int(inst & 0x1ff) //GETB
 			unaryv := L.rkValue(B)
+			if str, ok := unaryv.(LString); ok {
+				// a string that converts to a number is negated as a number; a handler is looked for only otherwise
+				if num, err := parseNumber(string(str)); err == nil {
+					unaryv = num
+				}
+			}
 			if nm, ok := unaryv.(LNumber); ok {
 				// +inline-call reg.Set RA -nm
 			} else {
@@ -926,6 +932,24 @@ func objectArith(L *LState, opcode int, lhs, rhs LValue) LValue {
 	case OP_POW:
 		event = "__pow"
 	}
+	// operands that are numbers or convert to numbers are added as numbers; a handler is looked
+	// for only when that fails (and it receives the operands as they were written)
+	lnum, rnum := lhs, rhs
+	if str, ok := lhs.(LString); ok {
+		if num, err := parseNumber(string(str)); err == nil {
+			lnum = num
+		}
+	}
+	if str, ok := rhs.(LString); ok {
+		if num, err := parseNumber(string(str)); err == nil {
+			rnum = num
+		}
+	}
+	if v1, ok1 := lnum.(LNumber); ok1 {
+		if v2, ok2 := rnum.(LNumber); ok2 {
+			return numberArith(L, opcode, LNumber(v1), LNumber(v2))
+		}
+	}
 	op := L.metaOp2(lhs, rhs, event)
 	if _, ok := op.(*LFunction); ok {
 		L.reg.Push(op)
@@ -934,23 +958,8 @@ func objectArith(L *LState, opcode int, lhs, rhs LValue) LValue {
 		L.Call(2, 1)
 		return L.reg.Pop()
 	}
-	if str, ok := lhs.(LString); ok {
-		if lnum, err := parseNumber(string(str)); err == nil {
-			lhs = lnum
-		}
-	}
-	if str, ok := rhs.(LString); ok {
-		if rnum, err := parseNumber(string(str)); err == nil {
-			rhs = rnum
-		}
-	}
-	if v1, ok1 := lhs.(LNumber); ok1 {
-		if v2, ok2 := rhs.(LNumber); ok2 {
-			return numberArith(L, opcode, LNumber(v1), LNumber(v2))
-		}
-	}
 	L.RaiseError(fmt.Sprintf("cannot perform %v operation between %v and %v",
-		strings.TrimLeft(event, "_"), lhs.Type().String(), rhs.Type().String()))
+		strings.TrimLeft(event, "_"), lnum.Type().String(), rnum.Type().String()))
 
 	return LNil
 }
